@@ -95,29 +95,6 @@ func c10Rep(c string, n int) string {
 	return s
 }
 
-// c10Perm: out is the concatenation of the blocks in some order (each block whole and contiguous).
-func c10Perm(out string, blocks []string) bool {
-	used := make([]bool, len(blocks))
-	return c10PermRec(out, "", blocks, used, 0)
-}
-
-func c10PermRec(out, acc string, blocks []string, used []bool, k int) bool {
-	if k == len(blocks) {
-		return out == acc
-	}
-	for i := range blocks {
-		if used[i] {
-			continue
-		}
-		used[i] = true
-		if c10PermRec(out, acc+blocks[i], blocks, used, k+1) {
-			return true
-		}
-		used[i] = false
-	}
-	return false
-}
-
 // VerifC10: every document of the family through the simple and the massive route of the same operation:
 // same accept/reject decision; when accepted, the massive result is the simple result up to the order of roots
 // (text, JSON records, dry-run report: a permutation of whole per-root blocks; walk: same rows, order kept inside
